@@ -39,6 +39,17 @@ def run(ctx):
         bad = [(g.loc(bb), c) for g, bb, c in muts if c not in ("insert", "entry", "extend", "get", "contains_key", "len", "is_empty", "get_mut")]
         ctx.ob("R4", "parent-outputs-are-only-added-never-dropped", len(muts) >= 2 and not bad, bad[0][0] if bad else f_.loc(0),
                "mutating calls on the node-output maps: %s" % sorted({c for _, _, c in muts}) + ("; dropping: %s" % bad if bad else ""), f_)
+    # a child starts from the concatenation of its parents' stacks / memories, accepted exactly up to the VM limits
+    from .. import access as A_
+    A_.from_words_tables(ctx, "R4")
+    # which nodes wait for the second pass is decided by the byte scan for Post* effects: its exactness (C15 R2/R3) and the
+    # checker's query (C03 R3) are part of the verdict
+    from . import C15 as C15_, C03 as C03_
+    from .C19 import _Only as _O
+    ctx.rule("R7", "deferral is decided exactly: the effects scan is exact (C15 R2/R3) and the query names exactly the Post* flags (C03 R3)")
+    C15_.run(_O(ctx, "R2", "R7"))
+    C15_.run(_O(ctx, "R3", "R7"))
+    C03_.r3(_O(ctx, "R3", "R7"), prog)
     # a malformed edge list is an error only because node_edges answers None for it (C18 R3, re-evaluated under R1)
     from . import C18
     C18.node_edges_rules(ctx, prog, "R1")
